@@ -13,7 +13,7 @@ RULE = ("operations (AND / OR / implicit / bool, 1-6 operands, nesting <= 3) who
 ASSUMPTIONS = ["range semantics over a linear order with * as unbounded; non-mutation checked on the implementation"]
 TRUSTED = ["lean/Luqum/Model/Transform.lean openRange / mergeOps (hand-written)"]
 
-BOUNDS = ["1", "3", "5", "a", "m", "a?", "b*", "?", "1*"]
+BOUNDS = ["1", "3", "5", "a", "m", "a?", "b*", "?", "1*", "\\*", "\\*", "#", "\\?"]
 
 
 def W(v, **kw):
